@@ -163,6 +163,37 @@ pub fn gen_text(rng: &mut Rng, mode: &str) -> Vec<u32> {
             }
             t
         }
+        "max" => {
+            // alternate RLE/LRE (each adds one level) so that depth ~125 is reached, then a little content
+            let mut t = vec![];
+            for _ in 0..rng.range(0, 2) {
+                let c = *rng.pick(&[L, R, EN, WS]);
+                t.push(pick_char(rng, c));
+            }
+            let start_rtl = rng.chance(1, 2);
+            let depth = rng.range(121, 128);
+            let iso_every = if rng.chance(1, 3) { rng.range(5, 40) } else { 0 };
+            for i in 0..depth {
+                let rtl = (i % 2 == 0) == start_rtl;
+                if iso_every > 0 && i % iso_every == iso_every - 1 {
+                    t.push(if rtl { RLI_C } else { LRI_C });
+                } else {
+                    t.push(if rtl { RLE_C } else { LRE_C });
+                }
+            }
+            for _ in 0..rng.range(1, 5) {
+                let c = *rng.pick(&[L, L, R, EN, AN, ON, WS, S, ET, NSM]);
+                t.push(pick_char(rng, c));
+            }
+            for _ in 0..rng.range(0, 6) {
+                t.push(*rng.pick(&[PDF_C, PDI_C]));
+                if rng.chance(1, 3) {
+                    let c = *rng.pick(&[L, R, EN, WS]);
+                    t.push(pick_char(rng, c));
+                }
+            }
+            t
+        }
         "brk" => {
             let mut t = vec![];
             let n = if rng.chance(1, 2) { rng.range(55, 130) } else { rng.range(2, 40) };
@@ -215,6 +246,42 @@ pub fn gen_text(rng: &mut Rng, mode: &str) -> Vec<u32> {
             }
             t
         }
+        "n0" => {
+            // bracket pairs whose N0 resolution matters: [context] OPEN inside CLOSE [NSM/BN]* [neutral] [strong]
+            let mut t = vec![];
+            let strongs = [L, R, AL, EN, AN];
+            for _ in 0..rng.range(0, 2) {
+                let c = *rng.pick(&strongs);
+                t.push(*rng.pick(pool(c)));
+                if rng.chance(1, 2) { t.push(pick_char(rng, WS)); }
+            }
+            let npairs = rng.range(1, 3);
+            for _ in 0..npairs {
+                let k = rng.below(OPEN_BRACKETS.len());
+                let k2 = if rng.chance(1, 8) { rng.below(OPEN_BRACKETS.len()) } else { k };
+                if rng.chance(1, 4) { t.push(*rng.pick(pool(BN))); }
+                t.push(OPEN_BRACKETS[k]);
+                for _ in 0..rng.range(0, 2) { if rng.chance(1, 3) { let c = *rng.pick(&[NSM, BN]); t.push(*rng.pick(pool(c))); } }
+                for _ in 0..rng.range(0, 3) {
+                    let c = *rng.pick(&[L, R, AL, EN, AN, ON, WS, NSM, ET]);
+                    t.push(*rng.pick(pool(c)));
+                }
+                if rng.chance(1, 6) {
+                    t.push(*rng.pick(&[LRI_C, RLI_C, FSI_C]));
+                    let c = *rng.pick(&strongs);
+                    t.push(pick_char(rng, c));
+                    t.push(PDI_C);
+                }
+                t.push(CLOSE_BRACKETS[k2]);
+                for _ in 0..rng.range(0, 2) { let c = *rng.pick(&[NSM, NSM, BN]); t.push(*rng.pick(pool(c))); }
+                if rng.chance(1, 2) { let c = *rng.pick(&[WS, ON, CS]); t.push(*rng.pick(pool(c))); }
+                if rng.chance(2, 3) {
+                    let c = *rng.pick(&strongs);
+                    t.push(*rng.pick(pool(c)));
+                }
+            }
+            t
+        }
         "weak" => {
             let w = weights(rng, &[(EN, 4), (ES, 3), (ET, 4), (CS, 3), (AN, 3), (NSM, 3), (BN, 3), (AL, 2)], true);
             let n = rng.range(2, 16);
@@ -252,7 +319,20 @@ pub fn to_units(rng: &mut Rng, scalars: &[u32], damage: bool) -> Vec<u32> {
             u.push(c);
         }
         if damage && rng.chance(1, 6) {
-            match rng.below(4) {
+            match rng.below(7) {
+                4 => {
+                    u.push(0xDC00 + rng.below(0x400) as u32);
+                    u.push(0xDC00 + rng.below(0x400) as u32);
+                }
+                5 => {
+                    u.push(0xD800 + rng.below(0x400) as u32);
+                    u.push(0xDC00 + rng.below(0x400) as u32);
+                    u.push(0xDC00 + rng.below(0x400) as u32);
+                }
+                6 => {
+                    u.push(0xD800 + rng.below(0x400) as u32);
+                    u.push(*rng.pick(&[0x5D0u32, 0x627, 0x31, 0x661, 0x202B, 0x2067, 0x202C, 0x2069, 0xA]));
+                }
                 0 => u.push(0xD800 + rng.below(0x400) as u32),
                 1 => u.push(0xDC00 + rng.below(0x400) as u32),
                 2 => {
@@ -272,7 +352,7 @@ pub fn to_units(rng: &mut Rng, scalars: &[u32], damage: bool) -> Vec<u32> {
 
 pub const NONFORMAT: [BidiClass; 14] = [L, R, AL, EN, ES, ET, AN, CS, NSM, BN, B, S, WS, ON];
 const CARRIERS_A: [u32; 16] = [0x61, 0x62, 0x63, 0x64, 0x65, 0x66, 0x67, 0x68, 0x31, 0x32, 0x28, 0x29, 0x5B, 0x5D, 0x20, 0xA];
-const CARRIERS_B: [u32; 16] = [0xE0, 0x5D0, 0x905, 0x10000, 0x1F600, 0x3042, 0x627, 0x20AC, 0x1D7CE, 0x661, 0x3008, 0x3009, 0x10400, 0xFF09, 0x2003, 0x2029];
+const CARRIERS_B: [u32; 18] = [0xE0, 0x5D0, 0x905, 0x10000, 0x1F600, 0x3042, 0x627, 0x20AC, 0x1D7CE, 0x661, 0x3008, 0x3009, 0x10400, 0xFF09, 0x2003, 0x2029, 0x2329, 0x232A];
 
 /// A random data source over a small alphabet; returns the spec and the alphabet.
 pub fn gen_ds(rng: &mut Rng) -> (DsSpec, Vec<u32>) {
@@ -299,9 +379,14 @@ pub fn gen_ds(rng: &mut Rng) -> (DsSpec, Vec<u32>) {
     // brackets among the ON entries (and sometimes on a non-ON entry: must be ignored)
     let ons: Vec<usize> = (0..entries.len()).filter(|&i| entries[i].1 == ON || rng.chance(1, 10)).collect();
     let mut i = 0;
+    // keys: usually the opening character itself; sometimes code points that real Unicode treats as
+    // canonically equivalent (U+2329 / U+3008) or otherwise related -- the source's keys are all that counts
+    let odd_keys = [0x2329u32, 0x3008, 0x28, 0x5B, 0x232A, 0x3009];
+    let use_odd = rng.chance(1, 3);
+    let mut nk = rng.below(odd_keys.len());
     while i + 1 < ons.len() {
         let (o, c) = (ons[i], ons[i + 1]);
-        let key = entries[o].0;
+        let key = if use_odd { nk += 1; odd_keys[nk % odd_keys.len()] } else { entries[o].0 };
         entries[o].2 = Some((key, true));
         entries[c].2 = Some((key, false));
         i += 2;
@@ -311,7 +396,7 @@ pub fn gen_ds(rng: &mut Rng) -> (DsSpec, Vec<u32>) {
 }
 
 pub fn gen_ds_text(rng: &mut Rng, alphabet: &[u32]) -> Vec<u32> {
-    let n = rng.range(1, 24);
+    let n = if rng.chance(1, 3) { rng.range(3, 9) } else { rng.range(1, 24) };
     let fmt = [LRE_C, RLE_C, PDF_C, LRO_C, RLO_C, LRI_C, RLI_C, FSI_C, PDI_C];
     (0..n)
         .map(|_| if rng.chance(1, 6) { *rng.pick(&fmt) } else { *rng.pick(alphabet) })
@@ -353,8 +438,14 @@ pub fn pick_line(rng: &mut Rng, enc: Enc, api: Api, dir: Dir, text: &[u32], ds: 
     if bounds.len() < 2 {
         return None;
     }
-    match rng.below(4) {
+    match rng.below(5) {
         0 => Some((pi, p.range.start, p.range.end)),
+        4 => {
+            // a one- or two-character line anywhere (reaches lines lying wholly at one level)
+            let i = rng.below(bounds.len() - 1);
+            let j = (i + rng.range(1, 2)).min(bounds.len() - 1);
+            Some((pi, bounds[i], bounds[j]))
+        }
         1 => {
             // drop the trailing character(s)
             let k = rng.range(1, (bounds.len() - 1).min(3));
@@ -439,7 +530,7 @@ fn bidi_case(rng: &mut Rng, modes: &[(&'static str, usize)], allow_ds: bool) -> 
         return (format!("{}+ds", mode), Input::Bidi { enc, api, dir, text, ds: Some(spec) });
     }
     let t = gen_text(rng, mode);
-    let text = if enc == Enc::U16 { let dmg = rng.chance(1, 4); to_units(rng, &t, dmg) } else { t };
+    let text = if enc == Enc::U16 { let dmg = rng.chance(1, 3); to_units(rng, &t, dmg) } else { t };
     (mode.to_string(), Input::Bidi { enc, api, dir, text, ds: None })
 }
 
@@ -453,8 +544,8 @@ fn line_case(rng: &mut Rng, modes: &[(&'static str, usize)]) -> (String, Input) 
     (mode, inp)
 }
 
-const MODES_ALL: [(&str, usize); 9] =
-    [("short", 6), ("long", 2), ("iso", 3), ("deep", 1), ("brk", 2), ("sep", 2), ("words", 3), ("weak", 3), ("para", 2)];
+const MODES_ALL: [(&str, usize); 11] =
+    [("short", 6), ("long", 2), ("iso", 3), ("deep", 1), ("brk", 2), ("sep", 2), ("words", 3), ("weak", 3), ("para", 2), ("max", 1), ("n0", 4)];
 
 /// the `n`-th generated case of property `prop`
 pub fn gen_case(prop: &str, rng: &mut Rng, n: usize, thorough: bool) -> (String, Input) {
@@ -468,14 +559,14 @@ pub fn gen_case(prop: &str, rng: &mut Rng, n: usize, thorough: bool) -> (String,
             if n == 1 {
                 return ("empty".into(), Input::Bidi { enc: Enc::U16, api: Api::B, dir: Dir::L1, text: vec![], ds: None });
             }
-            bidi_case(rng, &[("para", 5), ("iso", 4), ("short", 2), ("words", 1)], true)
+            bidi_case(rng, &[("para", 5), ("iso", 4), ("short", 2), ("words", 1), ("sep", 1)], true)
         }
         "C03" | "C06" => line_case(rng, &[("sep", 5), ("short", 3), ("words", 3), ("iso", 2), ("para", 2), ("long", 1)]),
-        "C05" => line_case(rng, &[("sep", 3), ("short", 3), ("words", 3), ("iso", 2), ("deep", 1), ("long", 2)]),
+        "C05" => line_case(rng, &[("sep", 3), ("short", 3), ("words", 3), ("iso", 2), ("deep", 1), ("long", 2), ("max", 2)]),
         "C04" => ("levels".into(), Input::Rv { levels: gen_levels(rng) }),
         "C07" => match rng.below(10) {
-            0..=3 => bidi_case(rng, &[("deep", 3), ("brk", 3), ("sep", 2), ("iso", 2), ("para", 2), ("short", 2), ("empty", 1)], true),
-            4..=8 => line_case(rng, &[("deep", 4), ("brk", 2), ("sep", 3), ("iso", 2), ("para", 2), ("short", 2)]),
+            0..=3 => bidi_case(rng, &[("deep", 3), ("brk", 3), ("sep", 2), ("iso", 2), ("para", 2), ("short", 2), ("empty", 1), ("max", 2)], true),
+            4..=8 => line_case(rng, &[("deep", 3), ("max", 4), ("brk", 2), ("sep", 3), ("iso", 2), ("para", 2), ("short", 2)]),
             _ => {
                 let m = pick_mode(rng, &[("iso", 2), ("para", 2), ("short", 1)]);
                 let t = gen_text(rng, m);
@@ -486,9 +577,9 @@ pub fn gen_case(prop: &str, rng: &mut Rng, n: usize, thorough: bool) -> (String,
         },
         "C08" => {
             if rng.chance(1, 2) {
-                bidi_case(rng, &[("sep", 3), ("weak", 3), ("brk", 2), ("short", 2), ("iso", 1), ("words", 2)], true)
+                bidi_case(rng, &[("sep", 3), ("weak", 3), ("brk", 2), ("short", 2), ("iso", 1), ("words", 2), ("n0", 4)], true)
             } else {
-                line_case(rng, &[("sep", 4), ("weak", 2), ("short", 2), ("words", 2)])
+                line_case(rng, &[("sep", 4), ("weak", 2), ("short", 2), ("words", 2), ("n0", 2), ("para", 2)])
             }
         }
         "C09" => {
@@ -528,12 +619,36 @@ pub fn gen_case(prop: &str, rng: &mut Rng, n: usize, thorough: bool) -> (String,
         }
         "C11" => {
             if rng.chance(2, 3) {
-                bidi_case(rng, &[("deep", 5), ("brk", 4)], false)
+                bidi_case(rng, &[("deep", 4), ("brk", 4), ("max", 2)], false)
             } else {
-                line_case(rng, &[("deep", 5), ("brk", 2)])
+                line_case(rng, &[("deep", 3), ("max", 4), ("brk", 2)])
             }
         }
         "C12" => {
+            if rng.chance(1, 7) {
+                // two bracket families whose KEYS are code points that real Unicode relates (canonical
+                // equivalents, fullwidth forms): only the source's keys may decide what pairs
+                let rel = [(0x2329u32, 0x3008u32), (0x3008, 0x2329), (0x232A, 0x3009), (0x28, 0xFF08), (0x5B, 0xFF3B), (0x2329, 0x232A)];
+                let (k1, k2) = *rng.pick(&rel);
+                let chars: [u32; 4] = if rng.chance(1, 2) { [0x3C, 0x3E, 0xAB, 0xBB] } else { [0x2329, 0x232A, 0x3008, 0x3009] };
+                let sr = 0x5D0u32; let sl = 0x61u32;
+                let spec = DsSpec { entries: vec![
+                    (chars[0], ON, Some((k1, true))), (chars[1], ON, Some((k1, false))),
+                    (chars[2], ON, Some((k2, true))), (chars[3], ON, Some((k2, false))),
+                    (sr, R, None), (sl, L, None), (0x20, WS, None), (0x31, EN, None)], dflt: ON };
+                let mut t = vec![];
+                for _ in 0..rng.range(0, 2) { t.push(*rng.pick(&[sr, sl, 0x20])); }
+                let o = *rng.pick(&[chars[0], chars[2]]);
+                let c = *rng.pick(&[chars[1], chars[3]]);
+                t.push(*rng.pick(&[sr, sl]));
+                t.push(o);
+                for _ in 0..rng.range(0, 2) { t.push(*rng.pick(&[sr, sl, 0x20, 0x31])); }
+                t.push(c);
+                for _ in 0..rng.range(0, 2) { t.push(*rng.pick(&[sr, sl, 0x20, chars[1], chars[3]])); }
+                let enc = if rng.chance(1, 2) { Enc::U8 } else { Enc::U16 };
+                let text = if enc == Enc::U16 { to_units(rng, &t, false) } else { t };
+                return ("ds-keys".into(), Input::Bidi { enc, api: Api::B, dir: pick_dir(rng), text, ds: Some(spec) });
+            }
             if rng.chance(1, 2) {
                 // abstract sequence instantiated through two alphabets
                 let nsym = rng.range(2, 10);
@@ -605,7 +720,64 @@ pub fn gen_case(prop: &str, rng: &mut Rng, n: usize, thorough: bool) -> (String,
             c1.truncate(30);
             c2.truncate(30);
             let init = *rng.pick(&[LRI_C, RLI_C]);
-            ("iso-swap".into(), Input::Meta13 { dir: pick_dir(rng), prefix, init, c1: balance(&c1), c2: balance(&c2), suffix })
+            let mut tag = "iso-swap";
+            match rng.below(8) {
+                0 | 1 => {
+                    // the pair is wrapped by an outer bracket pair with no strong character of its own inside
+                    tag = "iso-swap-brk";
+                    let k = rng.below(OPEN_BRACKETS.len());
+                    let mut pre: Vec<u32> = vec![];
+                    for _ in 0..rng.range(0, 3) { let c = *rng.pick(&[L, R, AL, EN, WS]); pre.push(pick_char(rng, c)); }
+                    pre.push(OPEN_BRACKETS[k]);
+                    if rng.chance(1, 3) { pre.push(pick_char(rng, WS)); }
+                    prefix = pre;
+                    let mut suf: Vec<u32> = vec![];
+                    if rng.chance(1, 3) { suf.push(pick_char(rng, WS)); }
+                    suf.push(CLOSE_BRACKETS[k]);
+                    for _ in 0..rng.range(0, 3) { let c = *rng.pick(&[L, R, AL, EN, WS, NSM]); suf.push(pick_char(rng, c)); }
+                    suffix = suf;
+                    c1.truncate(6);
+                    c2.truncate(6);
+                }
+                2 => {
+                    // the initiator sits just below the depth limit; the content overflows; terminators follow
+                    tag = "iso-swap-deep";
+                    // keep the initiator VALID (the property's precondition): embedding level at the
+                    // initiator at most 123, so that its own level is at most 125
+                    let start_rtl = rng.chance(1, 2);
+                    let target = rng.range(119, 123);
+                    let mut cur = 1usize; // worst case paragraph level
+                    let mut pre = vec![];
+                    let mut i = 0;
+                    loop {
+                        let rtl = (i % 2 == 0) == start_rtl;
+                        let next = if rtl { if cur % 2 == 0 { cur + 1 } else { cur + 2 } } else { if cur % 2 == 0 { cur + 2 } else { cur + 1 } };
+                        if next > target { break; }
+                        pre.push(if rtl { RLE_C } else { LRE_C });
+                        cur = next;
+                        i += 1;
+                    }
+                    prefix = pre;
+                    if rng.chance(1, 2) { prefix.push(pick_char(rng, L)); }
+                    let mk = |rng: &mut Rng| -> Vec<u32> {
+                        let mut c = vec![];
+                        for _ in 0..rng.range(0, 5) {
+                            c.push(*rng.pick(&[LRE_C, RLE_C, LRO_C, RLO_C, PDF_C, 0x61, 0x5D0, 0x31, LRI_C, PDI_C]));
+                        }
+                        c
+                    };
+                    c1 = mk(rng);
+                    c2 = mk(rng);
+                    let mut suf = vec![];
+                    for _ in 0..rng.range(1, 5) {
+                        suf.push(*rng.pick(&[PDF_C, PDF_C, PDI_C, 0x61, 0x5D0]));
+                    }
+                    suf.push(*rng.pick(&[0x61u32, 0x5D0, 0x31]));
+                    suffix = suf;
+                }
+                _ => {}
+            }
+            (tag.into(), Input::Meta13 { dir: pick_dir(rng), prefix, init, c1: balance(&c1), c2: balance(&c2), suffix })
         }
         "C14" => match n {
             0 => ("table".into(), Input::Cls),
@@ -669,7 +841,14 @@ pub fn gen_case(prop: &str, rng: &mut Rng, n: usize, thorough: bool) -> (String,
                 })
                 .collect();
             let k = rng.range(0, n + 3);
-            let ops: String = (0..k).map(|_| if rng.chance(1, 2) { 'f' } else { 'b' }).collect();
+            let bias = rng.below(10);
+            let ops: String = match bias {
+                0 | 1 | 2 => "b".repeat(n + 2),
+                3 | 4 => "f".repeat(n + 2),
+                5 => { let a = rng.below(n + 1); format!("{}{}", "f".repeat(a), "b".repeat(n + 2 - a)) }
+                6 => { let a = rng.below(n + 1); format!("{}{}", "b".repeat(a), "f".repeat(n + 2 - a)) }
+                _ => (0..k).map(|_| if rng.chance(1, 2) { 'f' } else { 'b' }).collect(),
+            };
             ("u16".into(), Input::U16 { units, ops })
         }
         "C19" => {
